@@ -390,7 +390,24 @@ func flipCase(r rune) rune {
 
 func (g *typeGen) variant(name string) string {
 	rs := []rune(name)
-	switch g.intn("variant", 8) {
+	switch g.intn("variant", 9) {
+	case 8:
+		// long spelling: delimiters between and around the characters until the
+		// name is longer than 32 bytes (and than every declared name)
+		delim := g.pick("longdelim", []string{"_", "-", "__"})
+		var sb strings.Builder
+		for sb.Len() < 34 {
+			sb.WriteString(delim)
+			if sb.Len() > 40 {
+				break
+			}
+		}
+		pad := sb.String()
+		parts := make([]string, len(rs))
+		for i, r := range rs {
+			parts[i] = string(r)
+		}
+		return pad[:len(pad)/2] + strings.Join(parts, delim) + pad[len(pad)/2:]
 	case 0:
 		return strings.ToUpper(name)
 	case 1:
